@@ -25,7 +25,7 @@ from gverif import tlc
 from gverif.common import SEED, die, ensure_repo
 from gverif.harness import Run
 from gverif.props.c12 import load_styles, run_tlc
-from gverif.props.c12_common import DEFAULTS, docstring_snapshot, guarded, exc_frames
+from gverif.props.c12_common import DEFAULTS, Timeout, docstring_snapshot, exc_frames, guarded_confirmed
 from gverif.props.c13_struct import GoogleBinding, NumpyBinding, SphinxBinding
 
 PROP = "C13"
@@ -34,12 +34,12 @@ ORDERED = {"google": True, "numpy": True, "sphinx": False}      # Sphinx merges 
 
 # style -> tier -> [(constants, workers, cap)]
 JOBS = {
-    "google": {"quick": [({"SECS": 1, "VARIETY": "full"}, 3, 2500), ({"SECS": 2, "VARIETY": "mini"}, 3, 2500)],
-               "thorough": [({"SECS": 1, "VARIETY": "full"}, 4, None), ({"SECS": 2, "VARIETY": "thin"}, 8, None), ({"SECS": 3, "VARIETY": "mini"}, 8, 150000)]},
-    "numpy": {"quick": [({"SECS": 1, "VARIETY": "full"}, 3, 2500), ({"SECS": 2, "VARIETY": "mini"}, 2, 2500)],
-              "thorough": [({"SECS": 1, "VARIETY": "full"}, 4, None), ({"SECS": 2, "VARIETY": "thin"}, 8, None), ({"SECS": 3, "VARIETY": "mini"}, 8, 150000)]},
-    "sphinx": {"quick": [({"SECS": 2, "VARIETY": "thin"}, 2, 2500), ({"SECS": 3, "VARIETY": "mini"}, 2, 2500)],
-               "thorough": [({"SECS": 2, "VARIETY": "full"}, 4, None), ({"SECS": 3, "VARIETY": "thin"}, 8, 150000), ({"SECS": 4, "VARIETY": "mini"}, 8, 150000)]},
+    "google": {"quick": [({"SECS": 1, "VARIETY": "full"}, 3, None), ({"SECS": 2, "VARIETY": "mini"}, 3, None)],
+               "thorough": [({"SECS": 1, "VARIETY": "full"}, 4, None), ({"SECS": 2, "VARIETY": "thin"}, 8, None), ({"SECS": 3, "VARIETY": "mini"}, 8, None)]},
+    "numpy": {"quick": [({"SECS": 1, "VARIETY": "full"}, 3, None), ({"SECS": 2, "VARIETY": "mini"}, 2, None)],
+              "thorough": [({"SECS": 1, "VARIETY": "full"}, 4, None), ({"SECS": 2, "VARIETY": "thin"}, 8, None), ({"SECS": 3, "VARIETY": "mini"}, 8, None)]},
+    "sphinx": {"quick": [({"SECS": 2, "VARIETY": "thin"}, 2, None), ({"SECS": 3, "VARIETY": "mini"}, 2, None)],
+               "thorough": [({"SECS": 2, "VARIETY": "full"}, 4, None), ({"SECS": 3, "VARIETY": "thin"}, 8, None), ({"SECS": 4, "VARIETY": "mini"}, 8, None)]},
 }
 # the strict invariant is expected to fail on the model here (documented defects); sphinx has none
 DEFECT_JOBS = {"google": {"SECS": 1, "VARIETY": "full"}, "numpy": {"SECS": 2, "VARIETY": "mini"}}
@@ -75,7 +75,7 @@ def replay_structs(run: Run, style: str, st, bind, griffe, cases: list, stats: S
         if d.value != text:
             die(f"{PROP}: rendered docstring is not a cleandoc fixed point: {text!r}")
         before = docstring_snapshot(d)
-        res, exc = guarded(lambda: d.parse(style, **options), 5.0)
+        res, exc = guarded_confirmed(lambda: d.parse(style, **options), 5.0)
         stats.parses += 1
         run.evaluated()
         run.replayed()
@@ -87,7 +87,7 @@ def replay_structs(run: Run, style: str, st, bind, griffe, cases: list, stats: S
         if n < 2:
             run.sample({"style": style, "kinds": kinds, "text": text, "parent": parent_src.split("\n", 2)[-1], "options": {k: v_ for k, v_ in options.items() if v_ != DEFAULTS[style][k]}}, limit=8)
         if exc is not None:
-            run.violation({"style": style, "clause": "parses-back", "kind": "-", "cause": "exception", "exc": type(exc).__name__},
+            run.violation({"style": style, "clause": "parses-back", "kind": "-", "cause": "does-not-terminate" if isinstance(exc, Timeout) else "exception", "exc": type(exc).__name__},
                           f"{style}: parsing the well-formed docstring {text!r} raised {exc!r} at {exc_frames(exc)}", ident)
             continue
         if docstring_snapshot(d) != before:
@@ -110,6 +110,8 @@ def run_replay_file(run: Run, griffe, path: str):
     with open(path) as fh:
         rec = json.load(fh)
     print(rec["what"])
+    for e in run.findings:
+        e.pop("expect_every_run", None)      # a replay re-executes one case: the other findings are not expected to show
     c = rec["case"]
     styles = load_styles(griffe, (c["style"],))
     st = styles[c["style"]]
@@ -141,10 +143,10 @@ def main(tier: str, replay: str | None = None):
     with ThreadPoolExecutor(max_workers=6) as pool:
         for style, st in styles.items():
             for consts, workers, cap in JOBS[style][tier]:
-                c = dict(consts, EMIT="TRUE", PARSESBACK=CLEAN_INVARIANT[style])
+                c = dict(consts, EMIT="TRUE", EMITMOD=consts.get("EMITMOD", 1), PARSESBACK=CLEAN_INVARIANT[style])
                 jobs[style, json.dumps(consts, sort_keys=True)] = (pool.submit(run_tlc, st.module, f"{st.module}_struct.cfg", workers=workers, constants=c, timeout=3000, heap="6g"), cap)
             if style in DEFECT_JOBS:
-                c = dict(DEFECT_JOBS[style], EMIT="FALSE", PARSESBACK="ParsesBack")
+                c = dict(DEFECT_JOBS[style], EMIT="FALSE", EMITMOD=1, PARSESBACK="ParsesBack")
                 jobs[style, "defect"] = (pool.submit(run_tlc, st.module, f"{st.module}_struct.cfg", workers=2, constants=c, timeout=1200, dump_trace=True), None)
     print(f"TLC done after {time.time() - t0:.1f}s", flush=True)
     run.exhaustive = True
@@ -176,6 +178,8 @@ def main(tier: str, replay: str | None = None):
         if cap is not None and len(cases) > cap:
             run.note(f"{style} {label}: replayed a seeded sample of {cap} of {len(cases)} structures")
             cases = rnd.sample(cases, cap)
+            run.exhaustive = False
+        if json.loads(label).get("EMITMOD", 1) != 1:
             run.exhaustive = False
         t1 = time.time()
         replay_structs(run, style, st, bind, griffe, cases, stats, f"tlc:{label}")
